@@ -14,6 +14,8 @@ pub struct Snippet {
     /// the snippet must live in a function of its own with this header suffix
     /// (e.g. "-> i32") and this tail expression
     pub own_fn: Option<(String, String)>,
+    /// the snippet mentions the context variable `cx: i32` (compile with the context runtime)
+    pub needs_ctx: bool,
 }
 
 const INTS: [&str; 8] = ["u8", "u16", "u32", "u64", "i8", "i16", "i32", "i64"];
@@ -52,11 +54,12 @@ fn two_different(c: &mut Choices) -> ((String, String), (String, String)) {
     }
 }
 
-pub const N_SNIPPETS: usize = 30;
+pub const N_SNIPPETS: usize = 34;
 
 pub fn snippet(k: usize, c: &mut Choices) -> Snippet {
     let mut decls = String::new();
     let mut own_fn = None;
+    let mut needs_ctx = false;
     let (kind, body): (&'static str, String) = match k % N_SNIPPETS {
         0 => {
             // a chain of un-annotated integer literals, one of them negated, all tied
@@ -301,6 +304,48 @@ pub fn snippet(k: usize, c: &mut Choices) -> Snippet {
             };
             ("distinct-named-records-with-equal-fields", s.to_string())
         }
+        30 => {
+            // context variables are read-only
+            needs_ctx = true;
+            let s = match c.below(4) {
+                0 => "cx = 1;\n",
+                1 => "cx += 2;\n",
+                2 => "cx -= 1;\n",
+                _ => "let zz = cx;\ncx *= zz;\n",
+            };
+            ("assignment-to-a-context-variable", s.to_string())
+        }
+        31 => {
+            // what leaves a function cannot stand in a constant initialiser
+            let d = match c.below(5) {
+                0 => "const ZZK: i32? = Option.Some(Option.Some(1)? + 1);\n",
+                1 => "fn zz_find(x: i32) -> i32? { Option.Some(x) }\nconst ZZK: i32? = Option.Some(zz_find(0)? + 1);\n",
+                2 => "const ZZK: i32 = { if true { accept }; 1 };\n",
+                3 => "const ZZK: i32 = { if false { reject }; 1 };\n",
+                _ => "const ZZK: i32 = { if true { return 2; }; 1 };\n",
+            };
+            decls.push_str(d);
+            ("early-exit-in-a-constant-initialiser", "let zz = 1;\n".to_string())
+        }
+        32 => {
+            // built-in methods and operators of generic types: receiver and arguments must agree
+            decls.push_str("fn zz_ints() -> List[i32] { [1, 2] }\n");
+            let s = match c.below(12) {
+                0 => "let zz = [1, 2, 3].join(\", \");\n",
+                1 => "let zz = zz_ints().join(\", \");\n",
+                2 => "let zzl = [1, 2];\nlet zz = zzl.join(\"-\");\n",
+                3 => "let zz = [1, 2].contains(\"a\");\n",
+                4 => "let zzl = [1, 2];\nzzl.push(\"a\");\n",
+                5 => "let zz = [1, 2].concat([\"a\"]);\n",
+                6 => "let zz = [1, 2] + [\"a\"];\n",
+                7 => "let zz = zz_ints().index(\"a\");\n",
+                8 => "let zz: String? = zz_ints().get(0);\n",
+                9 => "let zz = [\"a\", \"b\"].join(1);\n",
+                10 => "let zz = zz_ints().swap(\"a\", 1);\n",
+                _ => "let zz = \"abc\".contains(1);\n",
+            };
+            ("built-in-method-of-a-generic-type-with-other-types", s.to_string())
+        }
         _ => {
             let s = match c.below(3) {
                 0 => "let zz = 1;\nlet zzf = zz.zz_field;\n",
@@ -310,5 +355,5 @@ pub fn snippet(k: usize, c: &mut Choices) -> Snippet {
             ("field-of-a-scalar", s.to_string())
         }
     };
-    Snippet { kind, decls, body, own_fn }
+    Snippet { kind, decls, body, own_fn, needs_ctx }
 }
